@@ -10,8 +10,9 @@ def run(out: common.Outcome):
     rnd = random.Random(out.seed + 5)
     model = Model()
     corr = Corr(out, model, rnd)
-    out.coverage["source_pin"] = common.source_hash(worker_common.PINS)
+    common.pins_changed(out, worker_common.PINS)
     n = 1500 if out.tier == "quick" else 40000
+    n = int(n * out.boost)
     worker_common.run_worker_corr(out, corr, rnd, n, "worker(TestQueue+WorkerInteractor, lock-section interleavings)")
     corr.finish_incoq("C05")
     model.close()
